@@ -84,6 +84,7 @@ def short(q):
 
 
 # --------------------------------------------------------------------------- MIR model
+COMPACT = True
 
 class Place:
     __slots__ = ('b', 'pr')
@@ -156,6 +157,8 @@ class Operand:
             return ('move ' if self.kind == 'move' else '') + self.place.render()
         if self.kind == 'const':
             if 'fn' in self.k:
+                if COMPACT:
+                    return 'fn ' + '::'.join(strip_generics(self.k['fn']).split('::')[-3:])
                 return 'fn ' + self.k.get('fnfull', self.k['fn'])
             if 'i' in self.k and not self.k.get('s', '').replace('_', '').split('_')[0].lstrip('-').isdigit():
                 return 'const %s /*%s*/' % (self.k.get('s'), self.k['i'])
@@ -196,6 +199,8 @@ class Rvalue:
         if rv == 'rawptr':
             return ('&raw mut ' if d['mut'] else '&raw const ') + self.place.render()
         if rv == 'cast':
+            if COMPACT:
+                return '%s as (%s)' % (self.ops[0].render(), d['kind'].split('(')[0] + ('(' + d['kind'].split('(')[1].split(',')[0] + ')' if '(' in d['kind'] else ''))
             return '%s as %s (%s)' % (self.ops[0].render(), d['ty'], d['kind'])
         if rv == 'bin':
             return '%s(%s, %s)' % (d['op'], self.ops[0].render(), self.ops[1].render())
@@ -309,9 +314,15 @@ class Term:
             return 'switchInt(%s) [%s, otherwise: bb%d]' % (Operand(d['d']).render(), arms, d['otherwise'])
         if k == 'call':
             if 'cfull' in d:
-                name = d['cfull']
-                if self.res and self.res != self.callee:
-                    name += ' [=> %s]' % self.res
+                if COMPACT:
+                    name = '::'.join((self.target_fn or '?').split('::')[-3:])
+                    ca = [a for a in self.cargs() if a.startswith('const ') or a.endswith('Spec') or a in ('SPEC',)]
+                    if ca:
+                        name += '::<%s>' % ','.join(ca)
+                else:
+                    name = d['cfull']
+                    if self.res and self.res != self.callee:
+                        name += ' [=> %s]' % self.res
             else:
                 name = '(indirect %s)' % Operand(d['fnop']).render()
             tgt = ' -> bb%d' % d['target'] if 'target' in d else ' -> !'
@@ -411,7 +422,8 @@ class Fn:
         lines = ['fn %s  [%s:%d] argc=%d' % (self.q, self.file, self.line, self.argc)]
         for i, l in enumerate(self.locals):
             if l.get('n'):
-                lines.append('  let _%d: %s  // %s' % (i, l['ty'], l['n']))
+                ty = l['ty'] if not COMPACT else strip_generics(l['ty'])[-60:]
+                lines.append('  let _%d: %s  // %s' % (i, ty, l['n']))
         for b in self.blocks:
             if b.cleanup and not cleanup:
                 continue
